@@ -171,6 +171,10 @@ func c05Pool() []any {
 		lm(map[string]any{"type": "Resource", "v": "cpu"}, map[string]any{"type": "Pods", "v": "qps"}),
 		lm(map[string]any{"key": "a", "operator": "In"}, map[string]any{"key": "a", "operator": "NotIn"}),
 		lm(map[string]any{"kind": "User", "id": "x"}, map[string]any{"kind": "User", "id": "y"}),
+		// unique under the conventional key that takes precedence (mountPath), repeated under a later one (name):
+		// one volume mounted at two paths
+		lm(map[string]any{"name": "data", "mountPath": "/a"}, map[string]any{"name": "data", "mountPath": "/b", "v": "s1"}),
+		lm(map[string]any{"name": "data", "mountPath": "/b", "v": "s2"}),
 	}
 }
 
